@@ -1,5 +1,6 @@
 #!/bin/sh
 # tools/try_mutant.sh <patch.diff> <check-id>...   : apply patch to /repo, run quick checks, undo
+export VERIF_EVIDENCE_DIR=/tmp/vt/evidence_scratch; mkdir -p $VERIF_EVIDENCE_DIR   # never overwrite /verif/evidence from a scratch tree
 patch=$1; shift
 cd /repo || exit 2
 if [ -n "$(git status --porcelain -- src)" ]; then echo "/repo not clean"; exit 2; fi
